@@ -1376,7 +1376,7 @@ fn case(case: u64, rng: &mut Rng, rep: &mut Report, quick: bool) {
             return;
         }
     };
-    let threads = if std::env::var("C06_NOPOOL").is_ok() { 0 } else { *rng.pick(&[0usize, 0, 0, 2, 4]) };
+    let threads = *rng.pick(&[0usize, 0, 0, 2, 4]);
     let mut index = index;
     if threads > 0 {
         if let Err(e) = index.set_multithread_executor(threads) {
